@@ -22,9 +22,15 @@ type deviation struct {
 	kind string
 	arg  int
 	arg2 int
+	and  *deviation // a second deviation at another step of the same handshake (compound scripts)
 }
 
-func (d deviation) String() string { return fmt.Sprintf("%s@%s(%d,%d)", d.kind, d.step, d.arg, d.arg2) }
+func (d deviation) String() string {
+	if d.and != nil {
+		return fmt.Sprintf("%s@%s(%d,%d) + %s", d.kind, d.step, d.arg, d.arg2, d.and.String())
+	}
+	return fmt.Sprintf("%s@%s(%d,%d)", d.kind, d.step, d.arg, d.arg2)
+}
 
 func hsSample(typ byte, r *mon.RNG, pki *tlsPKI) []byte {
 	switch typ {
@@ -73,10 +79,37 @@ func (d deviation) apply(p *ref.Peer, r *mon.RNG, pki *tlsPKI, changed *bool) {
 		*changed = true
 		return
 	}
+	if d.kind == "skip-ccs-and-put-a-handshake-record-in-front-of-finished" {
+		// no ChangeCipherSpec is sent (so the peer's ciphers are never switched on), and the correctly computed Finished
+		// goes out unprotected behind another handshake record: a second copy of itself (arg < 0) or a sample message of
+		// type arg. An endpoint that merely skips the unexpected record would then see a valid Finished without any CCS.
+		ccs, fin := ref.StClientCCS, ref.StClientFinished
+		if d.step == ref.StServerCCS {
+			ccs, fin = ref.StServerCCS, ref.StServerFinished
+		}
+		p.Mutate = func(step string, def []ref.Item) []ref.Item {
+			switch step {
+			case ccs:
+				return nil
+			case fin:
+				if d.arg < 0 {
+					return append(append([]ref.Item{}, def...), def...)
+				}
+				return append([]ref.Item{{RecType: ref.RecHandshake, Data: hsSample(byte(d.arg), r, pki)}}, def...)
+			}
+			return def
+		}
+		*changed = true
+		return
+	}
 	inner := d.mutator(p, r, pki)
+	if d.and != nil {
+		first, second := inner, d.and.mutator(p, r, pki)
+		inner = func(step string, def []ref.Item) []ref.Item { return second(step, first(step, def)) }
+	}
 	p.Mutate = func(step string, def []ref.Item) []ref.Item {
 		out := inner(step, def)
-		if step == d.step {
+		if step == d.step || (d.and != nil && step == d.and.step) {
 			same := len(out) == len(def)
 			for i := 0; same && i < len(out); i++ {
 				if out[i].RecType != def[i].RecType || string(out[i].Data) != string(def[i].Data) || out[i].RawRecord != nil {
@@ -539,7 +572,7 @@ func runC15(c *Ctx) {
 		if t.peerIsClient {
 			steps = clientSteps
 		}
-		jobs = append(jobs, job{t, deviation{"-", "honest", 0, 0}})
+		jobs = append(jobs, job{t, deviation{"-", "honest", 0, 0, nil}})
 		for _, st := range steps {
 			if t.helloOnly {
 				break
@@ -547,7 +580,7 @@ func runC15(c *Ctx) {
 			if (st == ref.StClientCertificate || st == ref.StCertificateVerify || st == ref.StCertificateRequest) && !t.auth {
 				continue
 			}
-			add := func(kind string, a, b int) { jobs = append(jobs, job{t, deviation{st, kind, a, b}}) }
+			add := func(kind string, a, b int) { jobs = append(jobs, job{t, deviation{st, kind, a, b, nil}}) }
 			add("omit", 0, 0)
 			add("repeat", 0, 0)
 			if st == ref.StClientKeyExchange || st == ref.StCertificateVerify {
@@ -561,6 +594,11 @@ func runC15(c *Ctx) {
 			for _, ht := range hsTypes {
 				add("replace-hs", ht, 0)
 				add("prepend-hs", ht, 0)
+			}
+			if st == ref.StClientCCS || st == ref.StServerCCS {
+				for _, ht := range []int{-1, 0, 1, 2, 16, 20} {
+					add("skip-ccs-and-put-a-handshake-record-in-front-of-finished", ht, 0)
+				}
 			}
 			add("prepend-ccs", 0, 0)
 			add("replace-ccs", 0, 0)
@@ -610,10 +648,51 @@ func runC15(c *Ctx) {
 				}
 			}
 		}
+		// compound scripts: two simple deviations at two different steps of one handshake (what one step leaves out another
+		// step may make up for in a way a lenient endpoint accepts: a skipped CCS and a doubled Finished, a dropped message
+		// and a replayed one, ...). Sampled; the reference endpoint decides as for single deviations.
+		if !t.helloOnly {
+			rp := c.Rng("pairs/" + t.name)
+			simple := []string{"omit", "repeat", "replace-hs", "prepend-hs", "prepend-ccs", "replace-ccs", "prepend-warnings", "empty-record"}
+			var usable []string
+			for _, st := range steps {
+				if (st == ref.StClientCertificate || st == ref.StCertificateVerify || st == ref.StCertificateRequest) && !t.auth {
+					continue
+				}
+				usable = append(usable, st)
+			}
+			for k := 0; k < c.Q(120, 4000) && len(usable) >= 2; k++ {
+				a := rp.Intn(len(usable))
+				b := rp.Intn(len(usable) - 1)
+				if b >= a {
+					b++
+				}
+				if k%3 == 0 { // bias towards the end of the flight, where the cipher state changes
+					a = len(usable) - 1 - rp.Intn(2)
+					b = rp.Intn(len(usable))
+					if b == a {
+						b = (a + len(usable) - 1) % len(usable)
+					}
+				}
+				mk := func(st string) deviation {
+					d := deviation{step: st, kind: simple[rp.Intn(len(simple))]}
+					switch d.kind {
+					case "replace-hs", "prepend-hs":
+						d.arg = hsTypes[rp.Intn(len(hsTypes))]
+					case "prepend-warnings":
+						d.arg = 2
+					}
+					return d
+				}
+				d1, d2 := mk(usable[a]), mk(usable[b])
+				d1.and = &d2
+				jobs = append(jobs, job{t, d1})
+			}
+		}
 		if !t.peerIsClient {
 			for tail := 0; tail <= 10; tail++ {
 				for pv := 0; pv < 8; pv++ {
-					jobs = append(jobs, job{t, deviation{ref.StServerKeyExchange, "ecdhe-ske", tail, pv}})
+					jobs = append(jobs, job{t, deviation{ref.StServerKeyExchange, "ecdhe-ske", tail, pv, nil}})
 				}
 			}
 		}
@@ -627,12 +706,12 @@ func runC15(c *Ctx) {
 					if (v+variant)%7 != 0 && !(v == 0x0101 || v == 0x0303 || v == 0x0200 || v == 0x0100 || v == 0x0102) {
 						continue
 					}
-					jobs = append(jobs, job{t, deviation{ref.StClientHello, "client-hello", v, variant}})
+					jobs = append(jobs, job{t, deviation{ref.StClientHello, "client-hello", v, variant, nil}})
 				}
 			}
 			for _, v := range []int{0x0100, 0x0101, 0x0102, 0x0200, 0x02ff, 0x0300, 0x0301, 0x0302, 0x0303, 0x0304, 0x0400} {
 				for variant := 0; variant < c15HelloVariants; variant++ {
-					jobs = append(jobs, job{t, deviation{ref.StClientHello, "client-hello", v, variant}})
+					jobs = append(jobs, job{t, deviation{ref.StClientHello, "client-hello", v, variant, nil}})
 				}
 			}
 		}
@@ -652,6 +731,9 @@ func runC15(c *Ctx) {
 		res := runScript(j.t, j.dev, pki, seed, j.t.mkCfg(mon.NewRNG(seed)), suite)
 		w["endpoint_error"], w["peer_error"] = errStr(res.err), errStr(res.peerErr)
 		devCls := j.dev.kind
+		if j.dev.and != nil {
+			devCls = "compound/" + j.dev.kind + "+" + j.dev.and.kind + "@" + j.dev.and.step
+		}
 		switch j.dev.kind {
 		case "replace-hs", "prepend-hs":
 			devCls += fmt.Sprintf("/type=%d", j.dev.arg)
